@@ -1,4 +1,4 @@
-import SciVerif.Lemmas.C01r
+import SciVerif.Lemmas.C01s
 
 /-!
 # C01 — Expression solver evaluates by the documented step table
@@ -367,6 +367,36 @@ theorem C01_reject_missing_operand_nested (alg : AtomAlg A) (lit : List Char →
   have := solve_nested_err alg lit hn [] trivial [] Pre.nil 0 (Nat.le_refl _)
     (fun _ _ _ h => by cases h)
     f j rest fs e' hwf' hl' o v k hv "operand" (C01_reject_trailing_operator alg lit hn e' hwf' o ho)
+  simpa [List.append_assoc] using this
+
+/-- (D, string level, general position, ANY nesting depth) **A call with the wrong number of
+    arguments inside any number of nested parentheses / one-argument calls is rejected**, after a
+    well-formed prefix: `pre e post  f( g1( … c(T1,…,Tk) … ) ) rest` with `k ≠ narg c`. -/
+theorem C01_reject_arity_nested_after_prefix (alg : AtomAlg A) (lit : List Char → A)
+    (hn : NegNeg alg) (e : E) (hwf : e.WF) (hl : LitOK alg lit e)
+    (pre post : List LItem) (hpre : OprOnly pre) (hpost : OprOnly post)
+    (hadj : Adj (pre ++ items e ++ post)) (u : List Char)
+    (hu : Pre ((pre ++ items e ++ post).flatMap itemLex) u)
+    (f : F1) (fs : List (F1 × Nat × Nat)) (c : Call) (Ts : List (List Char)) (hne : Ts ≠ [])
+    (hb : ∀ T ∈ Ts, nest T 0 = some 0) (hk : Ts.length ≠ c.narg) (j a b : Nat) (rest : List Char) :
+    solve dflt alg dfltSteps (u ++ blanks j ++ f.sym
+        ++ nestCalls fs (blanks a ++ c.sym ++ joinArgs Ts ++ ')' :: blanks b) ++ ')' :: rest)
+      = .error "arity" := by
+  have := solve_nested_arity alg lit _ hadj u hu (cdepth e)
+    (framed_len alg lit e hl pre post hpre hpost u hu)
+    (fun n hd => itemOK_framed alg lit hn e hwf hl pre post hpre hpost n hd)
+    f j rest fs c Ts hne hb hk a b
+  simpa [List.append_assoc] using this
+
+/-- (D, string level, ANY nesting depth) the same at the start of the string, e.g. `((sin(1,2)))`. -/
+theorem C01_reject_arity_nested (alg : AtomAlg A) (lit : List Char → A)
+    (f : F1) (fs : List (F1 × Nat × Nat)) (c : Call) (Ts : List (List Char)) (hne : Ts ≠ [])
+    (hb : ∀ T ∈ Ts, nest T 0 = some 0) (hk : Ts.length ≠ c.narg) (j a b : Nat) (rest : List Char) :
+    solve dflt alg dfltSteps (blanks j ++ f.sym
+        ++ nestCalls fs (blanks a ++ c.sym ++ joinArgs Ts ++ ')' :: blanks b) ++ ')' :: rest)
+      = .error "arity" := by
+  have := solve_nested_arity alg lit [] trivial [] Pre.nil 0 (Nat.le_refl _)
+    (fun _ _ _ h => by cases h) f j rest fs c Ts hne hb hk a b
   simpa [List.append_assoc] using this
 
 /-- The full statement (character level): for every well-formed expression whose literals the
